@@ -554,11 +554,11 @@ func init() {
 		f := g.split(fuel-1, 2)
 		return call("add", g.Gen("int", env, f[0], PosExpr), g.Gen("int", env, f[1], PosExpr))
 	}})
-	add(prod{name: "app-add3", app: is("int"), tiny: true, mk: func(g *Gen, t Type, env Env2, fuel, pos int) Expr {
+	add(prod{name: "app-add3", app: is("int"), mk: func(g *Gen, t Type, env Env2, fuel, pos int) Expr {
 		f := g.split(fuel-1, 3)
 		return call("add3", g.Gen("int", env, f[0], PosExpr), g.Gen("int", env, f[1], PosExpr), g.Gen("int", env, f[2], PosExpr))
 	}})
-	add(prod{name: "app-fnvalue", rep: true, app: is("int"), mk: func(g *Gen, t Type, env Env2, fuel, pos int) Expr {
+	add(prod{name: "app-fnvalue", rep: true, tiny: true, app: is("int"), mk: func(g *Gen, t Type, env Env2, fuel, pos int) Expr {
 		// application of a function-typed local (parameter, let-bound closure)
 		fs := env.ofType("int->int")
 		if len(fs) == 0 {
@@ -592,7 +592,7 @@ func init() {
 		}
 		return &Block{Stmts: append([]Stmt{Let{fn, rhs}}, body.Stmts...), Final: body.Final}
 	}})
-	add(prod{name: "partial-let2", block: true, app: any_, tiny: true, mk: func(g *Gen, t Type, env Env2, fuel, pos int) Expr {
+	add(prod{name: "partial-let2", block: true, app: any_, mk: func(g *Gen, t Type, env Env2, fuel, pos int) Expr {
 		// two missing arguments, then one more supplied, then the last
 		f := g.split(fuel-1, 2)
 		fn, fn2 := g.freshName("pb"), g.freshName("pc")
